@@ -86,6 +86,15 @@ func vfC02Variants() []vfVariant {
 	c = vfBaseCfg(vfSuiteByName("13-GCM256"), "ecdsa")
 	c.CVer, c.SVer, c.HelloVerify, c.MTU = "13", "13", false, 256
 	add("13-mtu256", c, false)
+	// whole messages in separate datagrams (EncryptedExtensions alone, Certificate and the rest split): an ACK for one
+	// datagram then names only complete messages while the flight as a whole is still unacknowledged
+	c = vfBaseCfg(vfSuiteByName("13-GCM128"), "ecdsa")
+	c.CVer, c.SVer, c.HelloVerify, c.MTU = "13", "13", false, 600
+	add("13-mtu600", c, false)
+	c = vfBaseCfg(vfSuiteByName("13-CHACHA"), "ecdsa")
+	c.CVer, c.SVer, c.HelloVerify, c.MTU = "13", "13", false, 600
+	c.ClientAuth, c.ClientCert, c.Verify = RequireAndVerifyClientCert, true, true
+	add("13-clientauth-mtu600", c, false)
 	c = vfBaseCfg(vfSuiteByName("13-GCM128"), "ecdsa")
 	c.CVer, c.SVer, c.HelloVerify = "dual", "dual", false
 	add("dual-13", c, false)
@@ -126,6 +135,8 @@ type vfC02Outcome struct {
 	Applied   int
 	CAt, SAt  time.Duration
 	Datagrams int
+	NoLoss    bool // nothing was dropped or delayed: duplication and same-instant reordering only
+	Plain     bool // ... and only datagrams made of unprotected handshake records were duplicated or reordered
 }
 
 // vfC02Run executes one (variant, mask) case. Must run inside a bubble.
@@ -173,7 +184,7 @@ func vfC02Run(v vfVariant, mask vfMask, interval time.Duration) vfC02Outcome {
 	}
 	bound := vfBackoffSum(mask.Faults()+3, interval, true)
 	cAt, sAt := p.HandshakeTimed(bound + 5*time.Second)
-	out := vfC02Outcome{Applied: st.Applied(), CAt: cAt, SAt: sAt, Datagrams: len(n.Emissions(""))}
+	out := vfC02Outcome{Applied: st.Applied(), CAt: cAt, SAt: sAt, Datagrams: len(n.Emissions("")), NoLoss: st.Undisturbed(), Plain: st.PlainHandshakeOnly()}
 	for _, w := range n.Emissions("") {
 		acts := mask.C
 		if w.From == "s" {
@@ -198,6 +209,24 @@ func vfC02Run(v vfVariant, mask vfMask, interval time.Duration) vfC02Outcome {
 		out.Symptom = "late"
 
 		return out
+	}
+	// Nothing lost, nothing delayed, and the only disturbance was duplication or same-burst reordering of datagrams
+	// made of unprotected handshake records: reassembly and message ordering are the receiver's job (fragment
+	// buffer), there is no lost flight for a timer to recover, so no retransmission interval may pass.
+	if out.NoLoss && out.Plain && out.Applied > 0 {
+		first := interval
+		for _, iv := range []time.Duration{v.Cfg.IvC, v.Cfg.IvS} {
+			if iv > 0 && iv < first {
+				first = iv
+			}
+		}
+		if cAt >= first || sAt >= first {
+			out.Why = fmt.Sprintf("nothing was lost or delayed (only unprotected handshake datagrams duplicated/reordered within a burst: %v) "+
+				"yet completion waited for a retransmission timer: client at %v, server at %v, first timer at %v", out.Faulted, cAt, sAt, first)
+			out.Symptom = "timer-needed-without-loss"
+
+			return out
+		}
 	}
 	if v.Resumed {
 		// must really have been an abbreviated handshake, else the variant is not exercised
@@ -380,6 +409,17 @@ func TestVF_C02(t *testing.T) {
 				lat[out.Applied] = worst
 			}
 			mu.Unlock()
+			if out.NoLoss && out.Plain && out.Applied > 0 {
+				res.Count("judged_no_timer_without_loss", 1)
+			}
+			if out.NoLoss && out.Applied > 0 {
+				res.Count("completed_nothing_lost_or_delayed", 1)
+				res.Max("worst_latency_ms_nothing_lost_or_delayed", worst.Milliseconds())
+				res.Max("worst_latency_ms_nothing_lost_or_delayed/"+j.v.Name, worst.Milliseconds())
+				if worst > 0 {
+					res.Seen("needed_a_timer_although_nothing_lost/"+j.v.Name, j.mask.String()+fmt.Sprintf(" c=%v s=%v plain=%v %v", out.CAt, out.SAt, out.Plain, out.Faulted))
+				}
+			}
 			if i%997 == 0 {
 				res.Sample(map[string]any{"variant": j.v.Name, "mask": j.mask.String(), "applied": out.Applied,
 					"client_done_at": out.CAt.String(), "server_done_at": out.SAt.String(), "datagrams": out.Datagrams})
